@@ -48,6 +48,8 @@ Clauses(o) ==
         rest == IF enc = "none" THEN o.chain ELSE Tail(o.chain)
     IN
     IF ~o.ret.ok /\ ~o.ret.sigma THEN <<C("NonSigmaException")>>
+    \* an unescaped wildcard in the value: there is no byte string to encode
+    ELSE IF o.wild # 0 THEN (IF o.ret.ok THEN <<C("WildcardNotEncoded")>> ELSE <<>>)
     ELSE IF ~o.ret.ok THEN
         \* rejecting is the only alternative outcome, and only a re-encoding may reject
         (IF enc = "none" THEN <<C("RejectOnlyAlternative")>> ELSE <<>>)
